@@ -18,8 +18,16 @@ fn main() {
     unsafe {
         let mut rl: libc::rlimit = std::mem::zeroed();
         if libc::getrlimit(libc::RLIMIT_NOFILE, &mut rl) == 0 {
-            rl.rlim_cur = rl.rlim_max.min(1 << 20);
-            libc::setrlimit(libc::RLIMIT_NOFILE, &rl);
+            // the library keeps one descriptor per worker of every daemon ever created in the process (the exit-event
+            // consumer handed to epoll is never closed): long runs need a high limit.  Try to raise the hard limit as
+            // well (works as root), fall back to the existing hard limit.
+            let mut hi = rl;
+            hi.rlim_cur = 1 << 20;
+            hi.rlim_max = 1 << 20;
+            if libc::setrlimit(libc::RLIMIT_NOFILE, &hi) != 0 {
+                rl.rlim_cur = rl.rlim_max.min(1 << 20);
+                libc::setrlimit(libc::RLIMIT_NOFILE, &rl);
+            }
         }
     }
     let args: Vec<String> = std::env::args().collect();
